@@ -150,7 +150,7 @@ func c09(c *core.Ctx, r *core.Report) {
 			}
 			r.Check(ok, k, an.Pos(c, tcall), "Trigger receives the value of the evaluation just made", "Trigger is given "+an.D().Of(tcall.Common().Args[len(tcall.Common().Args)-1])+", not the unchanged result of this tick's evaluation")
 		}
-		// pass-through chain inside the pool
+		// pass-through chain inside the pool: the request parameter reaches the atomic supersede unchanged
 		trig := c.MustFn("internal/workers", "TriggerPool.Trigger")
 		pf := findPending(c)
 		var intParam *ssa.Parameter
@@ -159,43 +159,8 @@ func c09(c *core.Ctx, r *core.Report) {
 				intParam = p
 			}
 		}
-		chainOK := false
-		for _, call := range an.AllCalls(trig) {
-			t := an.Callee(call)
-			if t == nil || !core.InModule(t) || len(call.Common().Args) < 2 {
-				continue
-			}
-			if an.Strip(call.Common().Args[1]) != ssa.Value(intParam) {
-				if an.ReachesCall(t, 1, func(g *ssa.Function) bool { return pf.setFns[g] }) {
-					r.Violation("TriggerPool.Trigger#forward", an.Pos(c, call), "Trigger forwards %s instead of its request parameter", an.D().Of(call.Common().Args[1]))
-				}
-				continue
-			}
-			// sender: passes its int param to a set function
-			var sp *ssa.Parameter
-			for _, p := range t.Params {
-				if p.Type().String() == "int" {
-					sp = p
-				}
-			}
-			for _, sc := range an.AllCalls(t) {
-				if g := an.Callee(sc); g != nil && pf.setFns[g] {
-					if an.Strip(sc.Common().Args[len(sc.Common().Args)-1]) == ssa.Value(sp) {
-						// set: Swap(int64(n))
-						for _, op := range pf.ops {
-							if op.Fn == g && op.Op == "Swap" {
-								if _, isP := an.Strip(op.Call.Common().Args[1]).(*ssa.Parameter); isP {
-									chainOK = true
-								}
-							}
-						}
-					} else {
-						r.Violation(core.FuncName(t)+"#forward", an.Pos(c, sc), "the sender supersedes the pending count with %s instead of the number requested", an.D().Of(sc.Common().Args[len(sc.Common().Args)-1]))
-					}
-				}
-			}
-		}
-		r.Check(chainOK, "TriggerPool.Trigger#chain", c.Pos(trig.Pos()), "Trigger(n) → sender(n) → Swap(int64(n))", "the requested number does not reach the pending counter unchanged")
+		ok, why := reachesCounter(pf, trig, intParam, 4)
+		r.Check(ok, "TriggerPool.Trigger#chain", c.Pos(trig.Pos()), "Trigger(n) hands n unchanged (through "+why+") to the pending counter", "the requested number does not reach the pending counter unchanged: "+why)
 	})
 
 	rule(r, "C09.R3", "the ticker's period is the interval parameter unchanged; the ticker is created after the first evaluation; it is never Reset", func() {
@@ -283,3 +248,46 @@ func c09(c *core.Ctx, r *core.Report) {
 }
 
 func types_String(fn *ssa.Function) string { return fn.Signature.String() }
+
+// reachesCounter: parameter p of fn is passed on unchanged (conversions only) until it is the value written by
+// the atomic supersede of the pending counter; returns the chain walked or the reason it breaks.
+func reachesCounter(pf *pendingFacts, fn *ssa.Function, p *ssa.Parameter, depth int) (bool, string) {
+	if p == nil || depth <= 0 {
+		return false, "no request parameter in " + core.FuncName(fn)
+	}
+	for _, op := range pf.ops {
+		if op.Fn == fn && (op.Op == "Swap" || op.Op == "Store") && an.Strip(op.Call.Common().Args[1]) == ssa.Value(p) {
+			return true, fn.Name()
+		}
+	}
+	broken := ""
+	for _, call := range an.AllCalls(fn) {
+		t := an.Callee(call)
+		if t == nil || !core.InModule(t) || t.Blocks == nil {
+			continue
+		}
+		if _, isCall := call.(*ssa.Call); !isCall {
+			continue
+		}
+		if !(pf.setFns[t] || an.ReachesCall(t, depth, func(g *ssa.Function) bool { return pf.setFns[g] })) {
+			continue
+		}
+		for i, a := range call.Common().Args {
+			if an.Strip(a) == ssa.Value(p) && i < len(t.Params) {
+				if ok, why := reachesCounter(pf, t, t.Params[i], depth-1); ok {
+					return true, fn.Name() + " → " + why
+				}
+			}
+		}
+		// the supersede is reached but with another value
+		for i, tp := range t.Params {
+			if tp.Type().String() == "int" && i < len(call.Common().Args) && an.Strip(call.Common().Args[i]) != ssa.Value(p) {
+				broken = core.FuncName(fn) + " passes " + an.D().Of(call.Common().Args[i]) + " instead of its request parameter"
+			}
+		}
+	}
+	if broken == "" {
+		broken = core.FuncName(fn) + " does not pass its request parameter on to the supersede"
+	}
+	return false, broken
+}
